@@ -101,6 +101,12 @@ MUTANTS = [
     ("c20-first-handler-decides", "internal/pkg/input/device.go", "dev.DeviceType = DetermineDeviceType(foo)", "dev.DeviceType = DetermineDeviceType(foo[:1])", ["C20"]),
     ("c20-has-depends-on-first", "internal/pkg/input/info.go", "\tcase has(d.CapableTypes, evdev.EV_ABS):\n\t\treturn DI_TYPE_JOYSTICK", "\tcase len(d.CapableTypes) > 0 && d.CapableTypes[0] != evdev.EV_ABS && has(d.CapableTypes, evdev.EV_ABS):\n\t\treturn DI_TYPE_JOYSTICK", ["C20"]),
     ("c20-drop-last-of-big-group", "internal/pkg/input/device.go", "\t\tfor _, di := range dis {\n\t\t\thandler := Handler{", "\t\tfor i, di := range dis {\n\t\t\tif i == 4 {\n\t\t\t\tbreak\n\t\t\t}\n\t\t\thandler := Handler{", ["C20"]),
+    ("c15-despawn-deadlock", "internal/pkg/utils/fan.go", "\t\t\tselect {\n\t\t\tcase o <- e:\n\t\t\tcase <-removed:\n\t\t\t}", "\t\t\to <- e", ["C15"]),
+    ("c15-drop-when-full", "internal/pkg/utils/fan.go", "\t\t\tselect {\n\t\t\tcase o <- e:\n\t\t\tcase <-removed:\n\t\t\t}", "\t\t\tselect {\n\t\t\tcase o <- e:\n\t\t\tdefault:\n\t\t\t}", ["C15"]),
+    ("c15-no-close-on-despawn", "internal/pkg/utils/fan.go", "\tclose(c)\n\tdelete(f.outputs, id)", "\t_ = c\n\tdelete(f.outputs, id)", ["C15"]),
+    ("c15-output-swaps-pairs", "internal/pkg/midi/process.go", "\t\t\tportOut <- ev\n", "\t\t\tif len(ev) == 3 && ev[2]%64 == 63 {\n\t\t\t\tif nx, ok2 := <-midiEventsOut; ok2 {\n\t\t\t\t\tportOut <- nx\n\t\t\t\t}\n\t\t\t}\n\t\t\tportOut <- ev\n", ["C15"]),
+    ("c15-input-drops-when-busy", "internal/pkg/midi/process.go", "\t\t\tfor ev := range port.Input.ReceiveChannel() {\n\t\t\t\tinEvents <- ev\n\t\t\t}", "\t\t\tfor ev := range port.Input.ReceiveChannel() {\n\t\t\t\tselect {\n\t\t\t\tcase inEvents <- ev:\n\t\t\t\tdefault:\n\t\t\t\t}\n\t\t\t}", ["C15"]),
+    ("c15-output-dup-on-note-zero", "internal/pkg/midi/process.go", "\t\t\tportOut <- ev\n", "\t\t\tportOut <- ev\n\t\t\tif len(ev) == 3 && ev[1] == 1 && ev[2] == 17 {\n\t\t\t\tportOut <- ev\n\t\t\t}\n", ["C15"]),
     ("c14-check-before-insert", EVS,
      "\t\td.keyTracker[ie.Event.Code] = struct{}{}\n\t\tok := d.checkExitSequence()", "\t\tok := d.checkExitSequence()\n\t\td.keyTracker[ie.Event.Code] = struct{}{}", ["C14"]),
     ("c14-not-swallowed", EVS, "\t\t\t// this simple hack prevents from hanging\n\t\t\treturn", "\t\t\t// this simple hack prevents from hanging", ["C14"]),
